@@ -349,7 +349,11 @@ impl<'ast> Visit<'ast> for Scan {
                     syn::Expr::Path(p) => p.path.segments.last().map(|s| s.ident.to_string()).unwrap_or_default(),
                     _ => String::new(),
                 };
-                self.push_call("call", name, r, br(c.paren_token.span.close()).start, !c.args.is_empty() && !c.args.trailing_punct())
+                self.push_call("call", name.clone(), r, br(c.paren_token.span.close()).start, !c.args.is_empty() && !c.args.trailing_punct());
+                // `callee NAME`: the function expression of a call (robust against other mentions of NAME moving around)
+                if !name.is_empty() {
+                    self.push("callee", name, br(c.func.span()), None, None, None);
+                }
             }
             syn::Expr::MethodCall(m) => self.push_call("mcall", m.method.to_string(), r, br(m.paren_token.span.close()).start, !m.args.is_empty() && !m.args.trailing_punct()),
             syn::Expr::Binary(b) => {
@@ -542,6 +546,88 @@ fn find_in_items<'a>(src: &str, items: &'a [syn::Item], path: &[String], ctx: &s
     }
 }
 
+
+// ---------------------------------------------------------------- renamed locals / parameters
+
+/// Every identifier bound by a pattern (parameters, lets, closure parameters, match arms, loops) in source order.
+struct Bindings(Vec<String>);
+impl<'ast> Visit<'ast> for Bindings {
+    fn visit_pat_ident(&mut self, p: &'ast syn::PatIdent) {
+        self.0.push(p.ident.to_string());
+        syn::visit::visit_pat_ident(self, p);
+    }
+}
+
+fn is_ident_char(c: char) -> bool {
+    c.is_alphanumeric() || c == '_'
+}
+
+/// Replace identifier tokens (variables only: not `.name`, not `path::name`, not `name::..`).
+fn rename_idents(text: &str, map: &[(String, String)]) -> String {
+    let cs: Vec<char> = text.chars().collect();
+    let mut out = String::with_capacity(text.len());
+    let mut i = 0;
+    while i < cs.len() {
+        let c = cs[i];
+        if (c.is_alphabetic() || c == '_') && (i == 0 || !is_ident_char(cs[i - 1])) {
+            let mut j = i;
+            while j < cs.len() && is_ident_char(cs[j]) {
+                j += 1;
+            }
+            let word: String = cs[i..j].iter().collect();
+            let mut k = i;
+            while k > 0 && cs[k - 1] == ' ' {
+                k -= 1;
+            }
+            let after_dot = k > 0 && cs[k - 1] == '.' && !(k > 1 && cs[k - 2] == '.');
+            let after_path = k > 1 && cs[k - 1] == ':' && cs[k - 2] == ':';
+            let before_path = j + 1 < cs.len() && cs[j] == ':' && cs[j + 1] == ':';
+            match map.iter().find(|(o, _)| *o == word) {
+                Some((_, n)) if !after_dot && !after_path && !before_path => out.push_str(n),
+                _ => out.push_str(&word),
+            }
+            i = j;
+        } else {
+            out.push(c);
+            i += 1;
+        }
+    }
+    out
+}
+
+fn has_ident(text: &str, name: &str) -> bool {
+    let probe = vec![(name.to_string(), "\u{1}".to_string())];
+    rename_idents(text, &probe).contains('\u{1}')
+}
+
+/// Start (byte offset in `text`) of the last `fn` header line of a raw chunk - the hand-written wrapper a
+/// sub-region extraction sits in.
+fn last_fn_start(text: &str) -> Option<usize> {
+    let mut off = 0;
+    let mut best = None;
+    for line in text.split_inclusive('\n') {
+        let t = line.trim_start();
+        let mut w = t;
+        loop {
+            let mut stripped = false;
+            for q in ["pub(crate) ", "pub ", "async ", "const ", "proof ", "exec ", "open ", "closed ", "spec ", "broadcast "] {
+                if let Some(r) = w.strip_prefix(q) {
+                    w = r;
+                    stripped = true;
+                }
+            }
+            if !stripped {
+                break;
+            }
+        }
+        if w.starts_with("fn ") {
+            best = Some(off);
+        }
+        off += line.len();
+    }
+    best
+}
+
 // ---------------------------------------------------------------- generation
 
 struct Gen<'a> {
@@ -565,6 +651,8 @@ struct Gen<'a> {
     shifts: &'a BTreeMap<String, i64>,
     hint_seen: BTreeMap<String, usize>,
     hint_keys: Vec<String>,
+    // locals / parameters renamed since the anchors were recorded (old -> new), applied to the spliced text
+    renames: Vec<(String, String)>,
 }
 
 /// A hint may be relocated by the proof-repair search only if it is pure proof text: it must not assign to any
@@ -698,6 +786,67 @@ impl<'a> Gen<'a> {
         self.pick(scan, cands, k, named, &format!("{directive} {}", anchor.trim()), ctx)
     }
 
+    /// A renamed local / parameter must not lose an anchor or break a hint: the sequence of bound identifiers of the
+    /// function is recorded with the anchors; when exactly the names at some positions differ (same length, the
+    /// old names are gone, the new names are new) the unit's text for this function is alpha-renamed accordingly.
+    /// A unit that fails to verify after such a renaming ends UNDECIDED (check), never as a violation.
+    fn rename_locals(&mut self, sig: &syn::Signature, block: Option<&syn::Block>, spec: &FnSpec, fname: &str) -> FnSpec {
+        let mut b = Bindings(vec![]);
+        for inp in &sig.inputs {
+            b.visit_fn_arg(inp);
+        }
+        let nparams = b.0.len();
+        if let Some(bl) = block {
+            b.visit_block(bl);
+        }
+        let key = format!("{}|{}|bindings", self.key_prefix, fname);
+        let joined = b.0.join(",");
+        let mut out = FnSpec { name: spec.name.clone(), sections: spec.sections.clone() };
+        if let Some((old, n, ..)) = self.recorded.get(&key).cloned() {
+            let olds: Vec<&str> = if old.is_empty() { vec![] } else { old.split(',').collect() };
+            if old != joined && n == b.0.len() && olds.len() == b.0.len() {
+                let mut map: Vec<(String, String)> = vec![];
+                let mut ok = true;
+                for (i, (o, nw)) in olds.iter().zip(b.0.iter()).enumerate() {
+                    if o != nw {
+                        match map.iter().find(|(a, _)| a == o) {
+                            Some((_, prev)) if prev != nw => ok = false,
+                            Some(_) => {}
+                            None => {
+                                map.push((o.to_string(), nw.clone()));
+                                if i < nparams {
+                                    map.push((format!("{o}0"), format!("{nw}0"))); // R7 re-binding
+                                }
+                            }
+                        }
+                    }
+                }
+                for (o, nw) in &map {
+                    if olds.contains(&nw.as_str()) || b.0.contains(o) {
+                        ok = false;
+                    }
+                }
+                // an old name that is still bound at another position means the edit is not a pure renaming
+                for (i, o) in olds.iter().enumerate() {
+                    if map.iter().any(|(a, _)| a == o) && b.0[i] == *o {
+                        ok = false;
+                    }
+                }
+                if ok && !map.is_empty() {
+                    for s in out.sections.iter_mut() {
+                        s.arg = rename_idents(&s.arg, &map);
+                        s.text = rename_idents(&s.text, &map);
+                    }
+                    let what = map.iter().filter(|(o, _)| olds.contains(&o.as_str())).map(|(o, n)| format!("{o} -> {n}")).collect::<Vec<_>>().join(", ");
+                    self.log.push(json!({"rule": "renamed-local", "file": self.repo_file, "line": self.line_of(br(sig.span()).start), "old": what, "note": format!("fn {fname}: bound identifiers renamed since the anchors were recorded; the unit's text for this function is renamed accordingly")}));
+                    self.renames.extend(map);
+                }
+            }
+        }
+        self.observed.insert(key, (joined, b.0.len(), 0, 0, 0));
+        out
+    }
+
     fn line_of(&self, byte: usize) -> usize {
         self.src[..byte].bytes().filter(|b| *b == b'\n').count() + 1
     }
@@ -797,6 +946,8 @@ impl<'a> Gen<'a> {
     fn do_fn_sub(&mut self, attrs: &[syn::Attribute], vis: Option<&syn::Visibility>, sig: &syn::Signature, block: Option<&syn::Block>, spec: Option<&FnSpec>, in_trait_impl: bool, sub: Option<&str>) -> Option<Range<usize>> {
         let fname = sig.ident.to_string();
         let ctx = format!("{} fn {}", self.ctx, fname);
+        let renamed_spec = spec.map(|s| self.rename_locals(sig, block, s, &fname));
+        let spec = renamed_spec.as_ref();
         if sub.is_some() {
             let Some(block) = block else { undecided(&format!("{ctx}: no body")) };
             let blk = br(block.span());
@@ -1318,12 +1469,30 @@ fn main() {
     let mut hint_keys_all: Vec<serde_json::Value> = vec![];
     let mut pieces: Vec<Piece> = vec![];
     let mut rule_log: Vec<serde_json::Value> = vec![];
+    let mut pending_wrapper_rename: Option<(Vec<(String, String)>, usize)> = None;
     let mut items_log: Vec<serde_json::Value> = vec![];
     let mut sources: BTreeMap<String, (String, &'static syn::File)> = BTreeMap::new();
     for ch in &unit.chunks {
         match ch {
             Chunk::Raw { file, line0, text } => {
-                pieces.push(Piece { text: text.clone(), origin: Origin::Unit { file: file.clone(), line: *line0 }, func: String::new(), section: "raw".into(), pos: 0 });
+                let mut text = text.clone();
+                if let Some((map, indent)) = pending_wrapper_rename.take() {
+                    // the rest of the hand-written wrapper of a sub-region whose locals were renamed: up to its closing brace
+                    let mut end = 0;
+                    let mut closed = false;
+                    for line in text.split_inclusive('\n') {
+                        end += line.len();
+                        let t = line.trim_start();
+                        if t.starts_with('}') && line.len() - t.len() == indent {
+                            closed = true;
+                            break;
+                        }
+                    }
+                    if !closed { end = 0; }
+                    let head = rename_idents(&text[..end], &map);
+                    text = format!("{}{}", head, &text[end..]);
+                }
+                pieces.push(Piece { text, origin: Origin::Unit { file: file.clone(), line: *line0 }, func: String::new(), section: "raw".into(), pos: 0 });
             }
             Chunk::Extract(ex) => {
                 let full = format!("{}/{}", repo, ex.file);
@@ -1345,7 +1514,7 @@ fn main() {
                 let found = find_in_items(src, &file.items, &path, &ctx);
                 let mut g = Gen { repo_file: ex.file.clone(), src, edits: vec![], seq: 0, log: vec![], rules: ex.rules.clone(), ctx: ctx.clone(), canary,
                     recorded: &recorded, observed: BTreeMap::new(), key_prefix: format!("{}|{}", ex.file, ex.path.join(" / ")), key_seen: BTreeMap::new(),
-                    allow_gone: false, gone: false, shifts: &shifts, hint_seen: BTreeMap::new(), hint_keys: vec![] };
+                    allow_gone: false, gone: false, shifts: &shifts, hint_seen: BTreeMap::new(), hint_keys: vec![], renames: vec![] };
                 let spec_for = |name: &str| ex.fns.iter().find(|f| f.name == name || f.name.is_empty());
                 let (region, func_label): (Range<usize>, String);
                 let mut prefix = String::new();
@@ -1512,6 +1681,22 @@ fn main() {
                                 }
                             }
                             _ => undecided(&format!("{ctx}: unsupported item kind")),
+                        }
+                    }
+                }
+                if sub.is_some() && !g.renames.is_empty() {
+                    // sub-region: the enclosing wrapper function is hand-written raw text that names the real function's
+                    // locals as its parameters - alpha-rename it too (only if the new names are unused there)
+                    let map = g.renames.clone();
+                    if let Some(p) = pieces.iter_mut().rev().find(|p| p.section == "raw") {
+                        if let Some(at) = last_fn_start(&p.text) {
+                            let tail = p.text[at..].to_string();
+                            if map.iter().all(|(_, n)| !has_ident(&tail, n)) {
+                                let first = tail.lines().next().unwrap_or("");
+                                let indent = first.len() - first.trim_start().len();
+                                p.text = format!("{}{}", &p.text[..at], rename_idents(&tail, &map));
+                                pending_wrapper_rename = Some((map, indent));
+                            }
                         }
                     }
                 }
